@@ -2,10 +2,16 @@
 package c01
 
 import (
+	"context"
+	"fmt"
 	"testing"
 
+	"github.com/marekgalovic/anndb/storage"
+	"pgregory.net/rapid"
+	"verifharness/gen"
 	"verifharness/idxsm"
 	"verifharness/pbt"
+	"verifharness/psm"
 )
 
 func TestMain(m *testing.M) { pbt.Main(m) }
@@ -23,6 +29,60 @@ func TestIndexSearchValidity(t *testing.T) {
 		Replicas: pbt.Pick(3, 6),
 		Check: func(h idxsm.History, o *pbt.Obs) *pbt.Failure {
 			return idxsm.Run(h, idxsm.Oracles{Search: true, Struct: true}, o)
+		},
+	})
+}
+
+// ---- partition level: searches between applied log entries -----------------
+
+type PCase struct {
+	Log     psm.Log     `json:"log"`
+	Queries [][]float32 `json:"queries"`
+	Ks      []int       `json:"ks"`
+}
+
+func TestPartitionSearchValidity(t *testing.T) {
+	g := psm.Gen(psm.GenOpts{MaxIds: pbt.Pick(12, 40), MinEntries: 3, MaxEntries: pbt.Pick(40, 90), MaxDim: 4, MaxBatch: 5,
+		Weights: [6]int{6, 6, 4, 3, 3, 2}})
+	pbt.Run(t, pbt.Prop[PCase]{
+		ID: "C01", Name: "TestPartitionSearchValidity",
+		Rule: "rapid-generated logs of serialized partition changes (all six kinds; updates with nil, empty, overlapping and empty-valued metadata) applied through the repository's partition apply function (default index parameters), with a k-NN search after every entry judged by the same validity predicate against the sequential map model (live ids, current merged metadata, true scores, ascending, distinct, <=k, non-empty); non-trivial = a search after >=1 applied update or delete on a non-empty collection; distinct = distinct case JSON",
+		Gen: func(t *rapidT) PCase {
+			l := g.Draw(t, "log")
+			q := gen.Vector(l.Dim, l.Metric == 2)
+			return PCase{Log: l, Queries: rapid.SliceOfN(q, 1, 4).Draw(t, "queries"), Ks: rapid.SliceOfN(rapid.SampledFrom([]int{1, 1, 2, 3, 10, 100}), 1, 3).Draw(t, "ks")}
+		},
+		Replicas: 2,
+		Check: func(c PCase, o *pbt.Obs) *pbt.Failure {
+			sm := storage.VerifNewPartitionSM(psm.Meta(c.Log))
+			m := idxsm.Model{}
+			sp := idxsm.NewSpace(c.Log.Metric)
+			changed, nt := false, false
+			for i, e := range c.Log.Entries {
+				psm.ApplyModel(m, e)
+				if _, _, err := sm.Apply(psm.Marshal(e, i), psm.NotifID(i)); err != nil {
+					return pbt.Failf("C01:apply-error", "entry %d %s: apply returned %v", i, e, err)
+				}
+				if e.Kind != psm.KInsert && e.Kind != psm.KBatchInsert {
+					changed = true
+				}
+				q, k := c.Queries[i%len(c.Queries)], c.Ks[i%len(c.Ks)]
+				res, err := sm.Index().Search(context.Background(), q, uint(k))
+				if err != nil {
+					return pbt.Failf("C01:search-error", "after entry %d: %v", i, err)
+				}
+				if f := idxsm.CheckSearch(res, m, sp, q, k, fmt.Sprintf("search after entry %d %s", i, e)); f != nil {
+					return f
+				}
+				if changed && len(m) > 0 {
+					nt = true
+				}
+			}
+			if nt {
+				o.NonTrivial()
+			}
+			o.Note(c.Log.String())
+			return nil
 		},
 	})
 }
